@@ -333,19 +333,30 @@ def run(ctx):
         r = ctx.tlc('MC_YannyFile.tla', 'MC_YannyFile_%s.cfg' % dev, must_hold=False, count=False, label='negative control ' + dev)
         if not r['violated']:
             raise core.MachineryError('negative control %s was not refuted by TLC' % dev)
-    cfg = 'MC_YannyFile_quick.cfg' if ctx.quick else 'MC_YannyFile_thorough.cfg'
-    r = ctx.tlc('MC_YannyFile.tla', cfg, dump=True, timeout=2400)
-    deep = 3 if ctx.quick else 4
-    budget = 1500 if ctx.quick else 30000
+    # quick: all histories of <= 3 calls with the small append menu; thorough: <= 4 calls with the small menu
+    # and <= 3 calls with the rich menu (the history variable makes every path a distinct state)
+    cfgs = ['MC_YannyFile_quick.cfg'] if ctx.quick else ['MC_YannyFile_thorough.cfg', 'MC_YannyFile_thorough_rich.cfg']
+    budget = 1500 if ctx.quick else 20000
     pool = []
     n = 0
-    for st in core.iter_states(r):
-        if not st['hist']:
-            continue
-        if len(st['hist']) >= deep:
-            pool.append(st)
-            continue
-        n += do_replay(ctx, st, root, rng)
+    for cfg in cfgs:
+        r = ctx.tlc('MC_YannyFile.tla', cfg, dump=True, timeout=2400)
+        deep = 3 if cfg != 'MC_YannyFile_thorough.cfg' else 4
+        part = []
+        for st in core.iter_states(r):
+            if not st['hist']:
+                continue
+            if len(st['hist']) >= deep:
+                # reservoir of the deepest histories: keep memory bounded
+                if len(part) < budget:
+                    part.append(st)
+                else:
+                    k = rng.randrange(0, n + len(part) + 1)
+                    if k < budget:
+                        part[k] = st
+                continue
+            n += do_replay(ctx, st, root, rng)
+        pool.extend(part)
     rng.shuffle(pool)
     for st in pool[:budget]:
         n += do_replay(ctx, st, root, rng)
